@@ -4,7 +4,7 @@ import ast
 
 from ..program import AnalysisError, walk_local, dotted
 from ..analysis import Spec, src, const_value
-from ..rules import (value_leaves, strip_wrappers, before, order_of, canon, cond_equiv, substitute_locals, string_template, GWF, EXC, mpt, need_func, stores_to, is_const, kw,
+from ..rules import (ctext, value_leaves, strip_wrappers, before, order_of, canon, cond_equiv, substitute_locals, string_template, GWF, EXC, mpt, need_func, stores_to, is_const, kw,
                      parent_map, raise_class, explicit_exits)
 from . import common, gitcmds
 from .c02 import _site_publishes
@@ -398,8 +398,12 @@ def create_preconditions(prog, an, rep):
     # after the push: queue rebuild for development branches with queues
     rb = [n for n in c.nodes.values() if n.kind == 'stmt' and
           'RebuildQueuesJob' in src(n.ast)]
+    # (the job may be built in a local first: compare what process()
+    # receives once the locals are written out)
     proc = [n for n in c.nodes.values() if n.kind == 'stmt' and
-            src(n.ast) == 'job.bert_e.process(next_job)']
+            isinstance(n.ast, ast.Expr) and
+            canon(f, n.ast.value).startswith(
+                '%s.bert_e.process(RebuildQueuesJob(' % f.params[0])]
     rep.check(len(rb) == 1 and len(proc) == 1, R, f.qname + ': queues are '
               'rebuilt after a development branch is added', f.where(),
               'RebuildQueuesJob is no longer processed after the push')
@@ -497,7 +501,8 @@ def delete_preconditions(prog, an, rep):
     for x in qd:
         vs = [v for _, v in stores_to(f, src(x.args[0])) if v is not None]
         ok = len(vs) == 1 and \
-            src(vs[0]) == "QueueBranch(repo, 'q/%s' % del_branch.version)"
+            canon(f, vs[0]) == "QueueBranch(%s, 'q/%%s' %% %s.version)" % (
+                REPO, B)
         rep.check(ok, R, f.qname + ': unforced deletion only of the q/ '
                   'branch of that version', f.where(x), 'do_delete(%s) '
                   'bound to %s' % (src(x.args[0]), [src(v) for v in vs]))
@@ -647,7 +652,7 @@ def rebuild_order(prog, an, rep):
         put_arg = canon(f, put[0].args[0]) if len(put) == 1 and \
             put[0].args else ''
         ok = len(pj) == 1 and len(put) == 1 and \
-            'get_pull_request(%s)' % pid in canon(f, pj[0]) and \
+            'get_pull_request(%s)' % ctext(f, pid) in canon(f, pj[0]) and \
             put_arg == canon(f, pj[0]) and \
             not any(isinstance(x, (ast.If, ast.Continue, ast.Break))
                     for x in ast.walk(lp))
